@@ -7,7 +7,9 @@ tas-like settings and their lifts to every window mode).  The model is tied to /
   * tier B: harness/debiasers_corr.correspondence (seven debiasers) and harness/isimip_corr.correspondence (ISIMIP,
     unbounded configurations) — real per-window code vs the Lean drivers on the same dyadic inputs,
 and the property itself is tested on the real code (the failing-input search): apply_location on (obs, H, F) and on
-(a*obs+b, a*H+b, a*F+b) for K / degC / degF style maps, every debiaser, window modes on and off.
+(a*obs+b, a*H+b, a*F+b) for K / degC / degF style maps, every debiaser, window modes on and off; part of the cases go
+through the real `apply` on small grids with integer / float32 / float64 (and mixed) inputs — the result must be
+floating point and equivariant ("for all series" includes whole-Kelvin integer model output).
 """
 import datetime
 import random
@@ -138,6 +140,98 @@ def oracle_case(name, kind, factory, mode, seed, a, b, base, multi_year, wk):
     return nbad, mx, first, scale, unassigned, (want, got), kw
 
 
+# ------------------------------------------------------------------ the same property through the real `apply` (grids, dtypes)
+INT_MAPS = [(1, -273), (2, -500), (1, 1000), (3, -800)]  # keep an integer-typed series integer-typed
+DTYPE_COMBOS = [  # (obs, cm_hist, cm_future)
+    ("f8", "f8", "i4"), ("i8", "i4", "i8"), ("f8", "f4", "i4"), ("i4", "f8", "i2"), ("f8", "f8", "i8"),
+    ("f8", "f8", "f8"), ("f4", "f4", "f4"), ("f4", "f8", "f8"), ("f8", "f4", "f8"),
+]
+GRID_SHAPES = [(1, 1), (1, 2), (2, 1)]
+# Integer-valued (tied) or single-precision data: only the transfer functions that are continuous in the data are compared
+# (for the rank / interpolation based ones a tie sits on a float-rounding discontinuity of np.interp / np.quantile, and
+# single precision flips step-function decisions) — measured on /repo: <= 5e-13 (64 bit), <= 1.5e-4 absolute (float32)
+CONTINUOUS = ["LinearScaling", "DeltaChange", "QuantileMapping", "ECDFM-norm", "ScaledDistributionMapping"]
+GRID_ALL = CONTINUOUS + ["QuantileDeltaMapping-noyears", "CDFt-noyears", "CDFt-years", "ISIMIP"]
+F32_REL_TOL = 2e-5
+
+
+def _unit(x, a, b):
+    """a*x+b in the array's own dtype (integer maps keep integer arrays integer)"""
+    if np.issubdtype(x.dtype, np.integer):
+        return (int(a) * x + int(b)).astype(x.dtype)
+    return x.dtype.type(a) * x + x.dtype.type(b)
+
+
+def grid_case(name, factory, case):
+    """g(apply(obs,H,F)) vs apply(g obs, g H, g F) on a small grid with the given dtypes; returns (problem | None, max dev)"""
+    nprs = np.random.RandomState(case["np_seed"])
+    gx, gy = case["grid"]
+    n = case["n"]
+    start = datetime.date(1990 + case["np_seed"] % 30, 1 + case["np_seed"] % 12, 1)
+    dO, dH, dF = probes.dates_from(start, n), probes.dates_from(start, n), probes.dates_from(start + datetime.timedelta(days=7300), n)
+
+    def series(dates, mean, sd):
+        return np.stack([np.stack([probes.tas_like(nprs, dates, mean + 0.7 * i - 0.4 * j, sd) for j in range(gy)], axis=1) for i in range(gx)], axis=1)
+
+    o, h, f = series(dO, 272.0, 4.0), series(dH, 274.5, 5.0), series(dF, 276.0, 5.0)
+    arrs = [np.rint(x).astype(dt) if dt[0] == "i" else x.astype(dt) for x, dt in zip((o, h, f), case["dtypes"])]
+    a, b = case["a"], case["b"]
+    kw = dict(running_window_mode=False) if case["mode"] == "nowindow" else dict(running_window_mode=True, running_window_length=61, running_window_step_length=31)
+    tkw = dict(time_obs=dO, time_cm_hist=dH, time_cm_future=dF, progressbar=False)
+    with warnings.catch_warnings(), np.errstate(all="ignore"):
+        warnings.simplefilter("ignore")
+        base = factory(**kw).apply(*[x.copy() for x in arrs], **tkw)
+        moved = factory(**kw).apply(*[_unit(x, a, b) for x in arrs], **tkw)
+    base, moved = np.asarray(base), np.asarray(moved)
+    dtype_problem = ""
+    for nm, out in (("apply(obs, H, F)", base), ("apply(g obs, g H, g F)", moved)):
+        if not np.issubdtype(out.dtype, np.floating):
+            dtype_problem = (f"{nm} returned dtype {out.dtype}: the debiased values are not floating point (integer input was not converted, "
+                             f"results are truncated, and truncation does not commute with the unit change); ")
+            break
+    want, got = a * base.astype(float) + b, moved.astype(float)
+    scale = max(1.0, max(float(np.max(np.abs(x.astype(float)))) for x in arrs), max(float(np.max(np.abs(a * x.astype(float) + b))) for x in arrs))
+    tol = (F32_REL_TOL if any(dt == "f4" for dt in case["dtypes"]) else REL_TOL) * scale
+    if want.shape != got.shape:
+        return f"shapes differ {want.shape} / {got.shape}", float("inf"), None
+    dev = np.abs(want - got)
+    dev[np.isnan(want) & np.isnan(got)] = 0.0
+    dev[~np.isfinite(dev)] = np.inf
+    bad = np.argwhere(dev > tol)
+    mx = float(dev.max()) if dev.size else 0.0
+    if dtype_problem and not bad.size:
+        return dtype_problem + f"max deviation {mx:.3g}", mx, {"result_dtype": str(base.dtype)}
+    if bad.size:
+        i = tuple(int(v) for v in bad[0])
+        return (dtype_problem + f"g(apply(x)) != apply(g(x)) at {len(bad)} of {dev.size} values, max deviation {mx:.3g} (tolerance {tol:.3g}); first {i}: "
+                f"g(f(x))={want[i]!r} f(g(x))={got[i]!r}"), mx, {"index": list(i), "g_of_f": float(want[i]), "f_of_g": float(got[i])}
+    return None, mx, None
+
+
+def grid_oracle(rng, n_cases, res, hits, worst):
+    cfgs = _configs()
+    for k in range(n_cases):
+        dts = DTYPE_COMBOS[k % len(DTYPE_COMBOS)]
+        integer = any(dt[0] == "i" for dt in dts)
+        restricted = integer or any(dt == "f4" for dt in dts)
+        pool = CONTINUOUS if restricted else GRID_ALL
+        name = pool[(k // len(DTYPE_COMBOS) + k) % len(pool)]
+        a, b = INT_MAPS[(k // 3) % len(INT_MAPS)] if integer else MAPS[(k * 5) % len(MAPS)]
+        case = {"config": name, "mode": ["nowindow", "window"][(k // 2) % 2], "a": a, "b": b, "dtypes": list(dts), "grid": list(GRID_SHAPES[k % 3]),
+                "n": 400 + 40 * (k % 7), "np_seed": rng.randint(0, 2**31 - 2), "via": "apply"}
+        factory, _kind = cfgs[name]
+        try:
+            problem, mx, detail = grid_case(name, factory, case)
+        except Exception as ex:  # noqa: BLE001
+            problem, mx, detail = f"the run raised {type(ex).__name__}: {str(ex)[:200]}", float("inf"), None
+        key = "apply:" + name + ":" + "/".join(dts)
+        worst[key] = max(worst.get(key, 0.0), mx if np.isfinite(mx) else 1e300)
+        res.count(("apply", name, case["mode"], a, b, tuple(dts), tuple(case["grid"])), True, sample={**case, "max_abs_dev": mx})
+        if problem:
+            hits.append((f"{name} via apply [{case['mode']}, grid {case['grid']}, dtypes obs/cm_hist/cm_future = {'/'.join(dts)}] a={a} b={b}: {problem}",
+                         case, detail))
+
+
 # ------------------------------------------------------------------ the check
 def run(tier, res, force_search=False):
     rng = random.Random(C.seed() * 15485863 + 4)
@@ -237,6 +331,10 @@ def run(tier, res, force_search=False):
                     hits.append((f"{name} [{mode}] a={a:g} b=0: f(a*x) != a*f(x) at {nbad} of {want.size} steps, max deviation {mx:.3g} x scale",
                                  case, {"index": first, "g_of_f": float(want[first]), "f_of_g": float(got[first]), "n_bad": nbad}))
                 k += 1
+    # the same statement through the real `apply` (3-d arrays, small grids), integer / single / double precision inputs
+    n_grid = (27 if quick else 270) * (3 if (force_search or not lean_ok or mismatches) else 1)
+    grid_oracle(rng, n_grid, res, hits, worst)
+    res.extra["oracle_apply_grid_runs"] = n_grid
     res.extra["oracle_runs"] = k
     res.extra["oracle_worst_relative_deviation"] = {n: float(f"{v:.3g}") for n, v in worst.items()}
     res.extra["oracle_unassigned_steps"] = n_unassigned
@@ -245,12 +343,12 @@ def run(tier, res, force_search=False):
     # ---- verdict
     seen = set()
     for desc, case, detail in hits:
-        key = (case["config"], case["mode"])
+        key = (case["config"], case["mode"], case.get("via", "apply_location"), tuple(case.get("dtypes", ())))
         if key in seen:
             continue
         seen.add(key)
         res.violations.append((desc, {"property": PROP, "failing_input": case, "detail": detail,
-                                      "signature": {"config": case["config"], "mode": case["mode"]}}))
+                                      "signature": {"config": case["config"], "mode": case["mode"], "via": case.get("via", "apply_location")}}))
     if res.tie_broken and not hits:
         res.violations.append(("proof obligation / correspondence no longer checks: " + "; ".join(res.tie_broken)[:900],
                                {"property": PROP, "failing_input": None, "broken": res.tie_broken,
@@ -266,6 +364,15 @@ def replay(data):
         return 1
     cfgs = {**_configs(), **_mult_configs()}
     factory, kind = cfgs[case["config"]]
+    if case.get("via") == "apply":
+        problem, mx, _ = grid_case(case["config"], factory, case)
+        print(f"replay {case['config']} via apply [{case['mode']}, grid {case['grid']}, dtypes {case['dtypes']}] a={case['a']} b={case['b']}: max deviation {mx:.3g}")
+        if problem:
+            print("  " + problem)
+            print(f"VIOLATION property={PROP} (reproduced)")
+            return 1
+        print("not reproduced")
+        return 0
     nbad, mx, first, scale, unassigned, (want, got), kw = oracle_case(case["config"], kind, factory, case["mode"], case["np_seed"], case["a"],
                                                                     case["b"], case["base"], case["multi_year"], case["wk"])
     print(f"replay {case['config']} [{case['mode']}, {kw}] a={case['a']} b={case['b']}: {nbad} of {want.size} steps differ, max relative deviation {mx:.3g}")
